@@ -117,8 +117,19 @@ class SimConfig(tcpcl.config.Config):
 
 
 def make_config(node_id, tls_script=None, **kwargs):
+    ''' The configuration is loaded the way a deployment loads it: Config.from_file() on a YAML document (written in
+    JSON form, which is valid YAML) holding the options under "tcpcl". '''
+    import io
+    import json
     kwargs.setdefault('tls_enable', False)
-    cfg = SimConfig(node_id=node_id, **kwargs)
+    doc = dict(node_id=node_id)
+    for key, val in kwargs.items():
+        doc[key] = sorted(val) if isinstance(val, (set, frozenset)) else val
+    cfg = SimConfig()
+    cfg.from_file(io.StringIO(json.dumps({'tcpcl': doc})))
+    for key in doc:
+        if not hasattr(cfg, key):
+            raise boot.BootError('tcpcl.config.Config has no option %r' % key)
     cfg.tls_script = tls_script
     return cfg
 
